@@ -120,7 +120,7 @@ theorem mem_ids_of_dget {K : Type} [DecidableEq K] {m : List (K × Nat)} {k : K}
 
 /-- removing an indexed remote: never a KeyError half way, the remote leaves all three indexes, the
 rest keeps its order -/
-theorem removeOne_ok (dn : Nat → N) (dh : H) {s : St N H} (h : Inv s) {r : Nat} {d : Dev N H}
+theorem removeOne_ok (dn : Nat → N) (dh : H) (nm : H → H) (di : H) {s : St N H} (h : Inv s) {r : Nat} {d : Dev N H}
     (hd : s.devs[r]? = some d) (hr : r ∈ ids s.uidR) :
     step.removeOne s r d =
       ({ s with uidR := ddel s.uidR d.uid, nameR := ddel s.nameR d.name, haR := ddel s.haR d.ha }, .none) ∧
@@ -164,7 +164,7 @@ theorem removeOne_rejected {s : St N H} (h : Inv s) {r : Nat} {d : Dev N H} (hr 
     have : r' ≠ r := fun e => hr (e ▸ mem_ids_of_dget hg)
     simp [this]
 
-theorem removeList_ok (dn : Nat → N) (dh : H) : ∀ (rs : List Nat) (s : St N H), Inv s → rs.Nodup →
+theorem removeList_ok (dn : Nat → N) (dh : H) (nm : H → H) (di : H) : ∀ (rs : List Nat) (s : St N H), Inv s → rs.Nodup →
     (∀ r ∈ rs, r ∈ ids s.uidR) →
     (step.removeList s rs).2 = .none ∧ Inv (step.removeList s rs).1 ∧
     ids (step.removeList s rs).1.uidR = (ids s.uidR).filter (· ∉ rs) ∧
@@ -176,10 +176,10 @@ theorem removeList_ok (dn : Nat → N) (dh : H) : ∀ (rs : List Nat) (s : St N 
     obtain ⟨p, hp, hpr⟩ := List.mem_map.1 hr
     obtain ⟨d, hd, _⟩ := h.curU p hp
     rw [hpr] at hd
-    obtain ⟨e1, e2, e3⟩ := removeOne_ok dn dh h hd hr
+    obtain ⟨e1, e2, e3⟩ := removeOne_ok dn dh nm di h hd hr
     simp only [step.removeList, hd, e1]
     have hn' := List.nodup_cons.1 hn
-    have := removeList_ok dn dh rs _ e2 hn'.2 (by
+    have := removeList_ok dn dh nm di rs _ e2 hn'.2 (by
       intro r' hr'
       show r' ∈ ids (ddel s.uidR d.uid)
       rw [e3]
@@ -197,10 +197,13 @@ theorem removeList_ok (dn : Nat → N) (dh : H) : ∀ (rs : List Nat) (s : St N 
 /-- **one call**: whatever is called with whatever arguments, accepted or rejected, the three indexes stay
 consistent: same remotes in the same order, each under its current uid/name/ha, no key equal to the local
 device's, no remote twice. -/
-theorem C37_step_keeps_consistent (dn : Nat → N) (dh : H) (s : St N H) (op : Op N H) (h : Inv s) :
-    Inv (step dn dh s op).1 := by
+theorem C37_step_keeps_consistent (dn : Nat → N) (dh : H) (nm : H → H) (di : H) (s : St N H) (op : Op N H) (h : Inv s) :
+    Inv (step dn dh nm di s op).1 := by
   cases op with
   | create uid name ha =>
+    simp only [step]
+    exact { h with curU := h.curU.append_devs _, curN := h.curN.append_devs _, curH := h.curH.append_devs _ }
+  | createIp uid name ha =>
     simp only [step]
     exact { h with curU := h.curU.append_devs _, curN := h.curN.append_devs _, curH := h.curH.append_devs _ }
   | add r =>
@@ -394,31 +397,32 @@ theorem C37_step_keeps_consistent (dn : Nat → N) (dh : H) (s : St N H) (op : O
     | some d =>
       simp only []
       by_cases hr : r ∈ ids s.uidR
-      · rw [(removeOne_ok dn dh h hd hr).1]; exact (removeOne_ok dn dh h hd hr).2.1
+      · rw [(removeOne_ok dn dh nm di h hd hr).1]; exact (removeOne_ok dn dh nm di h hd hr).2.1
       · rw [removeOne_rejected h hr]; exact h
   | removeAll =>
     simp only [step]
-    exact (removeList_ok dn dh _ s h h.idsNodup (fun r hr => hr)).2.1
+    exact (removeList_ok dn dh nm di _ s h h.idsNodup (fun r hr => hr)).2.1
 
 /-- a new stack is consistent -/
-theorem C37_init_consistent (dn : Nat → N) (dh : H) (puid : Nat) (uid : Option Nat) (name : Option N)
-    (ha : Option H) : Inv (init dn dh puid uid name ha) := by
-  constructor <;> simp [init, dkeys, ids, Cur]
+theorem C37_init_consistent (dn : Nat → N) (dh : H) (nm : H → H) (di : H) (puid : Nat) (uid : Option Nat) (name : Option N)
+    (ha : Option H) : Inv (init dn dh puid uid name ha) ∧ Inv (initIp dn nm di puid uid name ha) := by
+  constructor <;> constructor <;> simp [init, initIp, dkeys, ids, Cur]
 
 /-- **all histories**: after any sequence of create / add / move / rename / reha / remove / removeAll
 calls on a new stack, accepted or rejected, the indexes are consistent (and so after every prefix). -/
-theorem C37_remote_indexes_consistent (dn : Nat → N) (dh : H) (ops : List (Op N H)) (s : St N H)
-    (h : Inv s) : Inv (run (step dn dh) s ops).1 := by
+theorem C37_remote_indexes_consistent (dn : Nat → N) (dh : H) (nm : H → H) (di : H) (ops : List (Op N H)) (s : St N H)
+    (h : Inv s) : Inv (run (step dn dh nm di) s ops).1 := by
   induction ops generalizing s with
   | nil => exact h
-  | cons op t ih => simp only [run]; exact ih _ (C37_step_keeps_consistent dn dh s op h)
+  | cons op t ih => simp only [run]; exact ih _ (C37_step_keeps_consistent dn dh nm di s op h)
 
 /-- no call on a consistent stack ends in an exception other than the rejection (in particular
 `removeRemote` never fails half way through its three deletions) -/
-theorem C37_never_crashes (dn : Nat → N) (dh : H) (s : St N H) (op : Op N H) (h : Inv s) (e : Err) :
-    (step dn dh s op).2 ≠ .crashed e := by
+theorem C37_never_crashes (dn : Nat → N) (dh : H) (nm : H → H) (di : H) (s : St N H) (op : Op N H) (h : Inv s) (e : Err) :
+    (step dn dh nm di s op).2 ≠ .crashed e := by
   cases op with
   | create uid name ha => simp [step]
+  | createIp uid name ha => simp [step]
   | add r =>
     simp only [step]
     cases s.devs[r]? with
@@ -481,20 +485,21 @@ theorem C37_never_crashes (dn : Nat → N) (dh : H) (s : St N H) (op : Op N H) (
     | some d =>
       simp only []
       by_cases hr : r ∈ ids s.uidR
-      · rw [(removeOne_ok dn dh h hd hr).1]; simp
+      · rw [(removeOne_ok dn dh nm di h hd hr).1]; simp
       · rw [removeOne_rejected h hr]; simp
   | removeAll =>
     simp only [step]
-    have t := (removeList_ok dn dh _ s h h.idsNodup (fun r hr => hr)).1
+    have t := (removeList_ok dn dh nm di _ s h h.idsNodup (fun r hr => hr)).1
     simp only [ids] at t
     rw [t]; simp
 
 /-- **a rejected call changes nothing**: neither the indexes, nor any device, nor the uid counter -/
-theorem C37_rejected_unchanged (dn : Nat → N) (dh : H) (s : St N H) (op : Op N H) (h : Inv s)
-    (hr : (step dn dh s op).2 = .rejected) : (step dn dh s op).1 = s := by
+theorem C37_rejected_unchanged (dn : Nat → N) (dh : H) (nm : H → H) (di : H) (s : St N H) (op : Op N H) (h : Inv s)
+    (hr : (step dn dh nm di s op).2 = .rejected) : (step dn dh nm di s op).1 = s := by
   revert hr
   cases op with
   | create uid name ha => simp [step]
+  | createIp uid name ha => simp [step]
   | add r =>
     simp only [step]
     cases s.devs[r]? with
@@ -566,30 +571,33 @@ theorem C37_rejected_unchanged (dn : Nat → N) (dh : H) (s : St N H) (op : Op N
     | some d =>
       simp only []
       by_cases hm : r ∈ ids s.uidR
-      · rw [(removeOne_ok dn dh h hd hm).1]; simp
+      · rw [(removeOne_ok dn dh nm di h hd hm).1]; simp
       · rw [removeOne_rejected h hm]; intro _; trivial
   | removeAll =>
     simp only [step]
-    have t := (removeList_ok dn dh _ s h h.idsNodup (fun r hr => hr)).1
+    have t := (removeList_ok dn dh nm di _ s h h.idsNodup (fun r hr => hr)).1
     simp only [ids] at t
     rw [t]; simp
 
 /-- **moves, renames and re-addressings keep the remote's position**: an accepted `moveRemote` (to a
 different uid) replaces the remote's entry in the uid index in place — same object, same position,
 new key — and touches neither the other two indexes nor any other device; likewise rename / reha. -/
-theorem C37_move_rename_keep_position (dn : Nat → N) (dh : H) (s : St N H) (r : Nat) (d : Dev N H)
+theorem C37_move_rename_keep_position (dn : Nat → N) (dh : H) (nm : H → H) (di : H) (s : St N H) (r : Nat) (d : Dev N H)
     (hd : s.devs[r]? = some d) :
-    (∀ new, new ≠ d.uid → (step dn dh s (.move r new)).2 = .none →
+    (∀ new, new ≠ d.uid → (step dn dh nm di s (.move r new)).2 = .none →
       ∃ a b, s.uidR = a ++ (d.uid, r) :: b ∧
-        (step dn dh s (.move r new)).1 = { s with devs := s.devs.set r { d with uid := new },
+        (step dn dh nm di s (.move r new)).1 =
+          { s with devs := s.devs.set r { d with uid := new },
                                                   uidR := a ++ (new, r) :: b }) ∧
-    (∀ new, new ≠ d.name → (step dn dh s (.rename r new)).2 = .none →
+    (∀ new, new ≠ d.name → (step dn dh nm di s (.rename r new)).2 = .none →
       ∃ a b, s.nameR = a ++ (d.name, r) :: b ∧
-        (step dn dh s (.rename r new)).1 = { s with devs := s.devs.set r { d with name := new },
+        (step dn dh nm di s (.rename r new)).1 =
+          { s with devs := s.devs.set r { d with name := new },
                                                     nameR := a ++ (new, r) :: b }) ∧
-    (∀ new, new ≠ d.ha → (step dn dh s (.reha r new)).2 = .none →
+    (∀ new, new ≠ d.ha → (step dn dh nm di s (.reha r new)).2 = .none →
       ∃ a b, s.haR = a ++ (d.ha, r) :: b ∧
-        (step dn dh s (.reha r new)).1 = { s with devs := s.devs.set r { d with ha := new },
+        (step dn dh nm di s (.reha r new)).1 =
+          { s with devs := s.devs.set r { d with ha := new },
                                                   haR := a ++ (new, r) :: b }) := by
   refine ⟨?_, ?_, ?_⟩
   · intro new hne hok
@@ -647,8 +655,8 @@ theorem C37_move_rename_keep_position (dn : Nat → N) (dh : H) (s : St N H) (r 
 /-- **uid assignment**: a `RemoteDevice` created without a uid gets one that is larger than every uid
 handed out before, is not the uid of any remote in the stack and not the local device's; the counter
 ends at it.  (No index changes.) -/
-theorem C37_create_uid_fresh (dn : Nat → N) (dh : H) (s : St N H) (name : Option N) (ha : Option H) :
-    let s' := (step dn dh s (.create none name ha)).1
+theorem C37_create_uid_fresh (dn : Nat → N) (dh : H) (nm : H → H) (di : H) (s : St N H) (name : Option N) (ha : Option H) :
+    let s' := (step dn dh nm di s (.create none name ha)).1
     ∃ d, s'.devs = s.devs ++ [d] ∧ s.puid < d.uid ∧ d.uid ∉ dkeys s.uidR ∧ d.uid ≠ s.loc.uid ∧
       s'.puid = d.uid ∧ s'.uidR = s.uidR ∧ s'.nameR = s.nameR ∧ s'.haR = s.haR := by
   have hf := findUid_fresh (usedUids s) (maxUid (usedUids s) + 1) s.puid (by omega)
@@ -656,16 +664,29 @@ theorem C37_create_uid_fresh (dn : Nat → N) (dh : H) (s : St N H) (name : Opti
   · intro hm; exact hf.1 (by simp only [usedUids, List.mem_append]; exact .inl hm)
   · intro e; exact hf.1 (by simp only [usedUids, List.mem_append, List.mem_singleton]; exact .inr e)
 
+/-- the same for an `IpRemoteDevice`; its address is the normalised one (or the default) -/
+theorem C37_createIp_uid_fresh (dn : Nat → N) (dh : H) (nm : H → H) (di : H) (s : St N H) (name : Option N)
+    (ha : Option H) :
+    let s' := (step dn dh nm di s (.createIp none name ha)).1
+    ∃ d, s'.devs = s.devs ++ [d] ∧ s.puid < d.uid ∧ d.uid ∉ dkeys s.uidR ∧ d.uid ≠ s.loc.uid ∧
+      d.ha = ipHa nm di ha ∧ s'.puid = d.uid ∧ s'.uidR = s.uidR ∧ s'.nameR = s.nameR ∧ s'.haR = s.haR := by
+  have hf := findUid_fresh (usedUids s) (maxUid (usedUids s) + 1) s.puid (by omega)
+  refine ⟨_, rfl, hf.2, ?_, ?_, rfl, rfl, rfl, rfl, rfl⟩
+  · intro hm; exact hf.1 (by simp only [usedUids, List.mem_append]; exact .inl hm)
+  · intro e; exact hf.1 (by simp only [usedUids, List.mem_append, List.mem_singleton]; exact .inr e)
+
 /-- an accepted `addRemote` appends the remote to all three indexes under its current keys; an accepted
 `removeRemote` takes exactly that remote out of all three; `removeAllRemotes` empties them -/
-theorem C37_add_remove_effect (dn : Nat → N) (dh : H) (s : St N H) (h : Inv s) (r : Nat) (d : Dev N H)
+theorem C37_add_remove_effect (dn : Nat → N) (dh : H) (nm : H → H) (di : H) (s : St N H) (h : Inv s) (r : Nat) (d : Dev N H)
     (hd : s.devs[r]? = some d) :
-    ((step dn dh s (.add r)).2 = .none →
-      (step dn dh s (.add r)).1 = { s with uidR := s.uidR ++ [(d.uid, r)], nameR := s.nameR ++ [(d.name, r)],
+    ((step dn dh nm di s (.add r)).2 = .none →
+      (step dn dh nm di s (.add r)).1 =
+          { s with uidR := s.uidR ++ [(d.uid, r)], nameR := s.nameR ++ [(d.name, r)],
                                            haR := s.haR ++ [(d.ha, r)] }) ∧
-    ((step dn dh s (.remove r)).2 = .none →
-      ids (step dn dh s (.remove r)).1.uidR = (ids s.uidR).erase r ∧ r ∈ ids s.uidR) ∧
-    (step dn dh s .removeAll).1 = { s with uidR := [], nameR := [], haR := [] } := by
+    ((step dn dh nm di s (.remove r)).2 = .none →
+      ids (step dn dh nm di s (.remove r)).1.uidR = (ids s.uidR).erase r ∧ r ∈ ids s.uidR) ∧
+    (step dn dh nm di s .removeAll).1 =
+          { s with uidR := [], nameR := [], haR := [] } := by
   refine ⟨?_, ?_, ?_⟩
   · intro hok
     simp only [step, hd] at hok ⊢
@@ -679,10 +700,10 @@ theorem C37_add_remove_effect (dn : Nat → N) (dh : H) (s : St N H) (h : Inv s)
   · intro hok
     simp only [step, hd] at hok ⊢
     by_cases hm : r ∈ ids s.uidR
-    · rw [(removeOne_ok dn dh h hd hm).1]; exact ⟨(removeOne_ok dn dh h hd hm).2.2, hm⟩
+    · rw [(removeOne_ok dn dh nm di h hd hm).1]; exact ⟨(removeOne_ok dn dh nm di h hd hm).2.2, hm⟩
     · rw [removeOne_rejected h hm] at hok; simp at hok
   · simp only [step]
-    obtain ⟨_, t2, t3, t4, t5, t6⟩ := removeList_ok dn dh _ s h h.idsNodup (fun r hr => hr)
+    obtain ⟨_, t2, t3, t4, t5, t6⟩ := removeList_ok dn dh nm di _ s h h.idsNodup (fun r hr => hr)
     have e0 : ids (step.removeList s (ids s.uidR)).1.uidR = [] := by
       rw [t3]; exact List.filter_eq_nil_iff.2 (by intro x hx; simpa using hx)
     have nil : ∀ {K : Type} (m : List (K × Nat)), ids m = [] → m = [] := by
@@ -698,13 +719,13 @@ theorem C37_add_remove_effect (dn : Nat → N) (dh : H) (s : St N H) (h : Inv s)
 remote's uid, name and host address are all free (not indexed, not the local device's); `removeRemote`
 exactly when that very object is indexed; a move to a different uid exactly when the uid is free and the
 object is indexed (likewise rename / reha: `C37_step_keeps_consistent` is symmetric in the three). -/
-theorem C37_accepted_iff (dn : Nat → N) (dh : H) (s : St N H) (h : Inv s) (r : Nat) (d : Dev N H)
+theorem C37_accepted_iff (dn : Nat → N) (dh : H) (nm : H → H) (di : H) (s : St N H) (h : Inv s) (r : Nat) (d : Dev N H)
     (hd : s.devs[r]? = some d) :
-    ((step dn dh s (.add r)).2 = .none ↔
+    ((step dn dh nm di s (.add r)).2 = .none ↔
       (d.uid ∉ dkeys s.uidR ∧ d.uid ≠ s.loc.uid) ∧ (d.name ∉ dkeys s.nameR ∧ d.name ≠ s.loc.name) ∧
       (d.ha ∉ dkeys s.haR ∧ d.ha ≠ s.loc.ha)) ∧
-    ((step dn dh s (.remove r)).2 = .none ↔ r ∈ ids s.uidR) ∧
-    (∀ new, new ≠ d.uid → ((step dn dh s (.move r new)).2 = .none ↔
+    ((step dn dh nm di s (.remove r)).2 = .none ↔ r ∈ ids s.uidR) ∧
+    (∀ new, new ≠ d.uid → ((step dn dh nm di s (.move r new)).2 = .none ↔
       new ∉ dkeys s.uidR ∧ new ≠ s.loc.uid ∧ r ∈ ids s.uidR)) := by
   refine ⟨?_, ?_, ?_⟩
   · simp only [step, hd]
@@ -733,7 +754,7 @@ theorem C37_accepted_iff (dn : Nat → N) (dh : H) (s : St N H) (h : Inv s) (r :
     exact ⟨fun _ => ⟨c1, c2, c3⟩, fun _ => rfl⟩
   · simp only [step, hd]
     by_cases hm : r ∈ ids s.uidR
-    · rw [(removeOne_ok dn dh h hd hm).1]; simp [hm]
+    · rw [(removeOne_ok dn dh nm di h hd hm).1]; simp [hm]
     · rw [removeOne_rejected h hm]; simp [hm]
   · intro new hne
     simp only [step, hd, hne, if_false]
@@ -768,22 +789,31 @@ end
 /-! non-vacuity: the sequence of the unit test, then a second remote, collisions and removal -/
 section Examples
 def dnE (u : Nat) : Nat := 100 + u
+/-- "host normalisation" on numbers: 10, 20, 30 are spellings of 1 -/
+def nmE (h : Nat) : Nat := if h = 10 ∨ h = 20 ∨ h = 30 then 1 else h
 def s0 : St Nat Nat := init dnE 0 0 none none none
 def opsE : List (Op Nat Nat) :=
   [.create none none (some 7), .add 0, .add 0, .move 0 3, .rename 0 55, .reha 0 8,
    .create none none (some 9), .create (some 3) (some 1) (some 2), .add 1, .add 2, .move 1 3, .move 1 7,
    .remove 2, .reha 1 0, .remove 0]
-example : Inv s0 := C37_init_consistent _ _ _ _ _ _
-example : (run (step dnE 0) s0 opsE).2 =
+example : Inv s0 := (C37_init_consistent dnE 0 nmE 0 _ _ _ _).1
+/-- Ip devices: the address is normalised when the device is created, not when it is re-addressed: two
+remotes created at 10 and 20 (both spellings of 1) cannot both be added; `reha` to 30 files the remote under 30 -/
+example : (run (step dnE 0 nmE 0) (initIp dnE nmE 0 0 none none (some 5))
+    [.createIp none none (some 10), .createIp none none (some 20), .add 0, .add 1, .reha 0 30, .add 1]) =
+    ({ puid := 3, loc := ⟨1, 101, 5⟩, devs := [⟨2, 102, 30⟩, ⟨3, 103, 1⟩], uidR := [(2, 0), (3, 1)],
+       nameR := [(102, 0), (103, 1)], haR := [(30, 0), (1, 1)] },
+     [.ref 0, .ref 1, .none, .rejected, .none, .none]) := by decide
+example : (run (step dnE 0 nmE 0) s0 opsE).2 =
     [.ref 0, .none, .rejected, .none, .none, .none, .ref 1, .ref 2, .none, .rejected, .rejected, .none,
      .rejected, .rejected, .none] := by decide
-example : (run (step dnE 0) s0 (opsE.take 12)).1 =
+example : (run (step dnE 0 nmE 0) s0 (opsE.take 12)).1 =
     { puid := 4, loc := ⟨1, 101, 0⟩, devs := [⟨3, 55, 8⟩, ⟨7, 104, 9⟩, ⟨3, 1, 2⟩],
       uidR := [(3, 0), (7, 1)], nameR := [(55, 0), (104, 1)], haR := [(8, 0), (9, 1)] } := by decide
 /-- the uid loop skips uids in use: puid 1, remotes at 2 and 3 (moved there) → the next device gets 4 -/
-example : ((run (step dnE 0) s0 [.create none none (some 7), .add 0, .create none none (some 8), .add 1,
+example : ((run (step dnE 0 nmE 0) s0 [.create none none (some 7), .add 0, .create none none (some 8), .add 1,
     .create none none (some 9)]).1.devs.map Dev.uid) = [2, 3, 4] := by decide
-example : ((run (step dnE 0) s0 [.create (some 2) none (some 7), .add 0, .create (some 3) none (some 8), .add 1,
+example : ((run (step dnE 0 nmE 0) s0 [.create (some 2) none (some 7), .add 0, .create (some 3) none (some 8), .add 1,
     .create none none (some 9)]).1.devs.map Dev.uid) = [2, 3, 4] := by decide
 end Examples
 
